@@ -1,8 +1,19 @@
 """Registry entry, manifest texts for C10."""
 
-ENTRY = {'parts': [{'scenario': 'scenarios.s_pool', 'chunk': 6}],
-         'quick': {'runs': 2500, 'budget': 60}, 'thorough': {'runs': 150000, 'budget': 1200}}
+ENTRY = {'parts': [{'scenario': 'scenarios.s_pool', 'chunk': 6, 'frac': 0.75},
+                   {'scenario': 'scenarios.s_sem', 'chunk': 40, 'frac': 0.25}],
+         'quick': {'runs': 3000, 'budget': 60}, 'thorough': {'runs': 200000, 'budget': 1200}}
 
-TEXT = {'level': 'TODO', 'ref': 'DESIGN.md 5 (C10), 4 (S-POOL)', 'note': 'TODO'}
-
-ENABLED = False
+TEXT = {'level': '(1) the real LaxBoundedSemaphore on a simulated condition variable under 2-4 actors issuing '
+          'hold/try/extra release/grow/shrink/clear: value in [0, bound] at every step outside a resize, '
+          'value == bound at rest. (2) the whole pool with putlocks=True and two submitters: semaphore never '
+          'above its bound at any step, never more apply jobs in flight (result not yet written by its '
+          'worker) than slots while no worker exits, and at rest - all jobs resolved - every slot is free '
+          'again; faults: worker deaths, recycling, hard-limit kills followed by the late result, failed '
+          'sends, grow/shrink.',
+ 'note': 'Trusted: the simulated kernel (simos) models Linux semaphores, pipes, poll, process table, signals '
+         'and wait statuses faithfully (stub conformance: selftest/conformance.py); BaseProcess._bootstrap '
+         'is replaced by a replica of its exit-code mapping (checked by C19); start method is spawn-like '
+         '(pickled copy). Workers die uncatchably only inside task code or between jobs; pipes do not lose '
+         'bytes. Sampling, not proof.',
+ 'ref': 'DESIGN.md 5 (C10), 4 (S-POOL, S-SEM)'}
